@@ -80,8 +80,6 @@ def requests(draw, last: bool = True, max_body: int = 300, allow_close: bool = T
     host_val = draw(st.sampled_from(["example.com", "example.com:80", "a", "[::1]:8080", ""]))
     extra = draw(st.lists(st.tuples(header_names(), OWS, field_values(), OWS), max_size=5))
     kind = draw(st.sampled_from(body_kinds or ["none", "none", "cl", "cl", "chunked", "chunked", "cl0"]))
-    if method.upper() == "HEAD" and kind != "none":
-        kind = "none"  # aiohttp never reads a body for HEAD (EMPTY_BODY_METHODS): framing is undecided there
     body = b""
     chunks: list[tuple[str, str, bytes]] = []
     trailers: list[tuple[str, str]] = []
@@ -495,7 +493,7 @@ def m_request_line(draw, pl):
     base = pl["offsets"][i]
     line = pl["bytes"][base:base + r["request_line_len"] - 2]
     method, target, version = line.split(b" ", 2)
-    variant = draw(st.sampled_from(["two_spaces", "tab_sep", "bad_method", "bad_version", "lower_version", "no_version", "ctl_target", "sp_target", "empty_method", "http09", "version_ws"]))
+    variant = draw(st.sampled_from(["two_spaces", "tab_sep", "bad_method", "bad_version", "lower_version", "no_version", "ctl_target", "sp_target", "empty_method", "http09", "version_ws", "lf_target", "cr_target", "crlf_less_lf_version"]))
     new = {
         "two_spaces": method + b"  " + target + b" " + version,
         "tab_sep": method + b"\t" + target + b" " + version,
@@ -505,6 +503,9 @@ def m_request_line(draw, pl):
         "no_version": method + b" " + target,
         "ctl_target": method + b" " + target[:1] + draw(st.sampled_from([b"\x00", b"\x01", b"\x7f", b"\x0b", b"\x1f"])) + target[1:] + b" " + version,
         "sp_target": method + b" " + target[:1] + b" " + target[1:] + b" " + version,
+        "lf_target": method + b" " + target[:1] + b"\n" + target[1:] + b" " + version,
+        "cr_target": method + b" " + target + b"\r " + version,
+        "crlf_less_lf_version": method + b" " + target + b" " + version + b"\nX-Smuggled: 1",
         "empty_method": b" " + target + b" " + version,
         "http09": method + b" " + target + b" HTTP/0.9",
         "version_ws": method + b" " + target + b" " + version + b" ",
@@ -575,3 +576,232 @@ def raw_mutations(draw, max_n: int = 2):
             j = draw(st.integers(i, min(len(s), i + 12)))
             s[i:i] = s[i:j]
     return {"bytes": bytes(s), "cls": "raw", "base": pl}
+
+
+# --------------------------------------------------------------------------- strict RFC 9112 request reader
+# Verdicts: a list of Msg up to the first problem, then one of
+#   ("ok", None)            the stream ends exactly at a message boundary
+#   ("incomplete", Msg|None) the stream ends inside message k (Msg has what is known: head parsed? partial body)
+#   ("reject", reason)      message k is malformed / ambiguous: MUST be answered with a client error
+#   ("dontcare", reason)    message k is outside what the property decides (accept or reject both fine)
+#   ("upgrade", tail)       message k-1 switched protocols; `tail` is everything after it
+FORBIDDEN_CTL = set(range(0, 9)) | set(range(10, 32)) | {127}  # everything but HTAB; includes CR and LF
+
+
+@dataclass
+class Msg:
+    method: str = ""
+    target: bytes = b""
+    version: tuple = (1, 1)
+    headers: list = field(default_factory=list)  # (name bytes, value bytes trimmed)
+    body: bytes = b""
+    start: int = 0
+    end: int = 0
+    head_end: int = 0
+    chunk_ends: list = field(default_factory=list)
+    complete: bool = False
+    upgrade: bool = False
+
+
+def _line(stream: bytes, pos: int):
+    """Next CRLF-terminated line -> (line, next_pos) | None if no CRLF yet; a bare LF before the CRLF stays inside."""
+    i = stream.find(b"\r\n", pos)
+    if i < 0:
+        return None
+    return stream[pos:i], i + 2
+
+
+def _field(line: bytes):
+    """field-line -> (name, value) or reject reason."""
+    if line[:1] in (b" ", b"\t"):
+        return "obs-fold or leading whitespace"
+    if b":" not in line:
+        return "no colon in field line"
+    name, value = line.split(b":", 1)
+    if not name or any(c not in TCHAR_B for c in name):
+        return "field name is not a token"
+    if any(c in FORBIDDEN_CTL for c in value):
+        return "control byte in field value"
+    return name, value.strip(b" \t")
+
+
+def strict_read(stream: bytes, max_messages: int = 50):
+    msgs: list[Msg] = []
+    pos = 0
+    n = len(stream)
+    while pos < n and len(msgs) < max_messages:
+        # RFC 9112 2.2: a server SHOULD ignore at least one empty line received prior to the request-line
+        while stream[pos:pos + 2] == b"\r\n":
+            pos += 2
+        if pos >= n:
+            break
+        m = Msg(start=pos)
+        r = _line(stream, pos)
+        if r is None:
+            rest = stream[pos:]
+            if b"\n" in rest:
+                return msgs, ("reject", "bare LF in request line")
+            return msgs, ("incomplete", None)
+        line, p = r
+        if b"\n" in line or b"\r" in line:
+            return msgs, ("reject", "bare CR/LF inside the request line")
+        parts = line.split(b" ")
+        if len(parts) != 3 or not all(parts):
+            return msgs, ("reject", "request line is not 'method SP target SP version'")
+        method, target, version = parts
+        if any(c not in TCHAR_B for c in method):
+            return msgs, ("reject", "method is not a token")
+        mv = re.fullmatch(rb"HTTP/([0-9])\.([0-9])", version)
+        if not mv:
+            return msgs, ("reject", "bad HTTP-version")
+        if any(c < 0x21 or c == 0x7F for c in target):
+            return msgs, ("dontcare", "control byte in request-target")
+        m.method = method.decode().upper()
+        m.target = target
+        m.version = (int(mv.group(1)), int(mv.group(2)))
+        if m.version[0] != 1:
+            return msgs, ("dontcare", "HTTP major version != 1")
+        # header section
+        while True:
+            r = _line(stream, p)
+            if r is None:
+                rest = stream[p:]
+                if b"\n" in rest:
+                    return msgs, ("reject", "bare LF in header section")
+                return msgs, ("incomplete", None)
+            line, p = r
+            if line == b"":
+                break
+            if b"\n" in line:
+                return msgs, ("reject", "bare LF in header section")
+            f = _field(line)
+            if isinstance(f, str):
+                return msgs, ("reject", f)
+            m.headers.append(f)
+        m.head_end = p
+        names = [h[0].lower() for h in m.headers]
+        # target forms
+        if m.method == "CONNECT":
+            return msgs, ("dontcare", "CONNECT")
+        if not (target.startswith(b"/") or target == b"*" or re.match(rb"[A-Za-z][A-Za-z0-9+.-]*://", target)):
+            return msgs, ("reject", "request-target is neither origin-, absolute- nor asterisk-form")
+        if target == b"*" and m.method != "OPTIONS":
+            return msgs, ("reject", "asterisk-form with a method other than OPTIONS")
+        if not target.startswith(b"/") and target != b"*":
+            # absolute-form: host/port syntax is yarl's business -> undecided unless plainly fine
+            if not re.fullmatch(rb"[A-Za-z][A-Za-z0-9+.-]*://(\[[0-9A-Fa-f:.]+\]|[A-Za-z0-9.-]+)(:[0-9]{1,5})?(/[\x21-\x7e\x80-\xff]*)?", target):
+                return msgs, ("dontcare", "unusual absolute-form target")
+        # Host
+        hosts = names.count(b"host")
+        if m.version == (1, 1) and hosts == 0:
+            return msgs, ("reject", "HTTP/1.1 request without Host")
+        if hosts > 1:
+            return msgs, ("reject", "repeated Host")
+        # framing
+        cls = [v for k, v in m.headers if k.lower() == b"content-length"]
+        tes = [v for k, v in m.headers if k.lower() == b"transfer-encoding"]
+        if cls and tes:
+            return msgs, ("reject", "Content-Length together with Transfer-Encoding")
+        if len(cls) > 1:
+            return msgs, ("reject", "repeated Content-Length")
+        if len(tes) > 1:
+            return msgs, ("reject", "repeated Transfer-Encoding")
+        for k in names:
+            if names.count(k) > 1 and k in (b"content-type", b"content-location", b"content-range", b"etag", b"max-forwards", b"server", b"user-agent"):
+                return msgs, ("dontcare", "duplicate singleton header (documented hardening)")
+        if b"sec-websocket-key1" in names:
+            return msgs, ("dontcare", "hixie-76 handshake")
+        conn = b",".join(v for k, v in m.headers if k.lower() == b"connection").lower()
+        upgrade_hdr = [v for k, v in m.headers if k.lower() == b"upgrade"]
+        if tes:
+            te = tes[0]
+            codings = [c.strip(b" \t") for c in te.split(b",")]
+            if not all(c.isascii() for c in codings):
+                return msgs, ("reject", "non-ASCII transfer coding")
+            low = [c.lower() for c in codings]
+            if low.count(b"chunked") != 1 or low[-1] != b"chunked":
+                return msgs, ("reject", "transfer coding is not a single final 'chunked'")
+            if m.version == (1, 0):
+                return msgs, ("dontcare", "Transfer-Encoding in HTTP/1.0")
+            # chunked body
+            body = bytearray()
+            q = p
+            while True:
+                r = _line(stream, q)
+                if r is None:
+                    rest = stream[q:]
+                    if b"\n" in rest:
+                        return msgs, ("reject", "bare LF in chunk-size line")
+                    m.body = bytes(body)
+                    msgs_partial = m
+                    return msgs, ("incomplete", msgs_partial)
+                line, q2 = r
+                if b"\n" in line:
+                    return msgs, ("reject", "bare LF in chunk-size line")
+                size_b, _, ext = line.partition(b";")
+                if not re.fullmatch(rb"[0-9A-Fa-f]+", size_b):
+                    if re.fullmatch(rb"[0-9A-Fa-f]+[ \t]+", size_b) and b";" in line:
+                        return msgs, ("dontcare", "BWS before chunk extension")
+                    return msgs, ("reject", "malformed chunk size")
+                if any(c in FORBIDDEN_CTL for c in ext):
+                    return msgs, ("reject", "control byte in chunk extension")
+                size = int(size_b, 16)
+                q = q2
+                if size == 0:
+                    break
+                if n - q < size:
+                    body += stream[q:]
+                    m.body = bytes(body)
+                    return msgs, ("incomplete", m)
+                body += stream[q:q + size]
+                q += size
+                if n - q < 2:
+                    if stream[q:] not in (b"", b"\r"):
+                        return msgs, ("reject", "missing CRLF after chunk data")
+                    m.body = bytes(body)
+                    return msgs, ("incomplete", m)
+                if stream[q:q + 2] != b"\r\n":
+                    return msgs, ("reject", "missing CRLF after chunk data")
+                q += 2
+                m.chunk_ends.append(len(body))
+            # trailers
+            while True:
+                r = _line(stream, q)
+                if r is None:
+                    if b"\n" in stream[q:]:
+                        return msgs, ("reject", "bare LF in trailer section")
+                    m.body = bytes(body)
+                    return msgs, ("incomplete", m)
+                line, q = r
+                if line == b"":
+                    break
+                if b"\n" in line:
+                    return msgs, ("reject", "bare LF in trailer section")
+                f = _field(line)
+                if isinstance(f, str):
+                    return msgs, ("reject", "trailer: " + f)
+            m.body = bytes(body)
+            m.end = q
+        elif cls:
+            v = cls[0]
+            if not re.fullmatch(rb"[0-9]+", v):
+                return msgs, ("reject", "Content-Length is not 1*DIGIT")
+            ln = int(v)
+            if n - p < ln:
+                m.body = stream[p:]
+                return msgs, ("incomplete", m)
+            m.body = stream[p:p + ln]
+            m.end = p + ln
+        else:
+            m.end = p
+        m.complete = True
+        msgs.append(m)
+        pos = m.end
+        if upgrade_hdr and b"upgrade" in [t.strip() for t in conn.split(b",")]:
+            m.upgrade = True
+            return msgs, ("upgrade", stream[pos:])
+        if m.version == (1, 0) and b"keep-alive" not in conn or b"close" in [t.strip() for t in conn.split(b",")]:
+            if pos < n:
+                return msgs, ("dontcare", "bytes after a message that asked to close")
+            return msgs, ("ok", None)
+    return msgs, ("ok", None)
